@@ -35,6 +35,8 @@ def run(ctx):
     from . import C10 as RC10
     from . import r_state as RS
     RC10.hidden_state_inventory(ctx, "R10.e", RS.reset_before_read(ctx, None))
+    from . import r_rank as RR
+    RR.search_chain_shape(ctx, "R06.a", parts=("complete", "score", "filter"))
     RC20.buffer_rules(ctx, None, None, "R20.f")
     return info("Necessary constants for single-typo tolerance at the n=5 worst cases: length gate accepts 1-5/6, "
                 "Jaccard gate accepts 1/2, the DL gate accepts c/5 for every edit-cost constant c, every cost <= 1.0, "
